@@ -9,15 +9,15 @@ TRUSTED = [
     'unit rewrites (logged): `use crate::utils;` dropped, `utils::apply_factor(` => `apply_factor(`, `Self::Num::from_u64` => `N::from_u64`',
 ]
 UNVERIFIED = [
-    'DistributePositionImpact::execute applying `-distribution_amount` to the pool through Pool::apply_delta_to_long_amount and the clock update (`just_passed_in_seconds_for_position_impact_distribution`): the call chain is located by text on every run (lost => exit 2) but not proved here; the pool delta operations are under contract in C15',
+    'the action: ASSUMED callee contracts - Pool::apply_delta_to_long_amount (required trait method: checked signed addition on the long slot; store-side pool C15) and just_passed_in_seconds_for_position_impact_distribution (hands out the seconds since the last call and restarts the clock; a ghost log of the durations handed out); what elapsed time the clock reports is store-side / wall-clock behaviour',
     'the store-side implementation of the two accessors (programs/store Market as PositionImpactMarket): config-key reads are C16',
     'u64 instance (model tests only): not instantiated here',
 ]
 ASSUMPTIONS = []
 MANIFEST = dict(engine='verus',
-    technique='Verus contract on the trait-default method PositionImpactMarketExt::pending_position_impact_pool_distribution_amount, extracted from /repo each run and placed on a carrier for Self (two field reads), over the proved contract of apply_factor',
-    text='Deductive proof, unbounded over all pool amounts, minimum amounts, distribution rates and elapsed seconds (u64): Ok((d, next)) implies d == min(floor(secs * rate / 10^20), current - min) when rate != 0 and current > min, else d == 0; next == current - d, so the pool never increases, and never drops below the configured minimum if it started above it; a readable market with representable secs * rate always succeeds.',
-    note='Trusted: Verus+Z3, prelude, carrier for Self. The action applying the delta to the pool is located, not proved (listed).')
+    technique='Verus contracts on the action DistributePositionImpact::execute and PositionImpactMarketMutExt::apply_delta_to_position_impact_pool (market carrier with ghost clock log) and on the trait-default method PositionImpactMarketExt::pending_position_impact_pool_distribution_amount, extracted from /repo each run and placed on a carrier for Self (two field reads), over the proved contract of apply_factor',
+    text='Deductive proof, unbounded over all pool amounts, minimum amounts, distribution rates and elapsed seconds (u64): Ok((d, next)) implies d == min(floor(secs * rate / 10^20), current - min) when rate != 0 and current > min, else d == 0; next == current - d, so the pool never increases, and never drops below the configured minimum if it started above it; a readable market with representable secs * rate always succeeds. The action reads and restarts the clock exactly once, computes the distribution for exactly the seconds the clock handed out, and shrinks the long slot of the impact pool by exactly the distributed amount (the reported next amount is the new pool amount; nothing else moves).',
+    note='Trusted: Verus+Z3, prelude, carriers for Self; the pool slot write and the clock are assumed callee contracts (listed).')
 
 
 def replay(ob, repo, seed):
@@ -54,8 +54,4 @@ FALLBACK_OBS = ['C14.pending_position_impact_pool_distribution_amount']
 
 
 def extra(res, repo, tier, seed):
-    import os, re
-    s = open(os.path.join(repo, 'crates/model/src/action/distribute_position_impact.rs')).read()
-    if not re.search(r'\.pending_position_impact_pool_distribution_amount\(duration_in_seconds\)\?', s) or \
-       not re.search(r'apply_delta_to_position_impact_pool\(&distribution_amount\.to_opposite_signed\(\)\?\)\?', s):
-        res.undecided.append('anchor lost: DistributePositionImpact::execute no longer calls pending_position_impact_pool_distribution_amount(duration_in_seconds)? / apply_delta_to_position_impact_pool(&distribution_amount.to_opposite_signed()?)?')
+    pass
